@@ -86,3 +86,22 @@ gen("C08", "C08 — backtests get unique ids and cannot disturb one another. Sta
     ("c08_unknown_dataset", "unknown_dataset", "A creation naming an unknown dataset is rejected and changes nothing."),
     ("c08_refuted_q_init_no_bump", "c08_refuted_q_init_no_bump", "Refuted for the code as it was (init never stored the id it handed out): two inits on a fresh state return the same id (kernel-evaluated witness)."),
 ])
+
+
+IMP18 = IMP.replace("Proofs.ServerProofs.", "Proofs.ServerProofs Proofs.EndToEnd18.")
+gen("C18history", "C18 over WHOLE HISTORIES of the Jura exchange (every Num F, defect-free valuation, axiom-free). "
+    "Alongside the real run a ghost count is kept per resting order — the number of ticks since its admission on which "
+    "its asset was quoted (Proofs/EndToEnd18.v: seen, seen_tick, grun; defined independently of the exchange's own "
+    "attempted_execution flag and of the decision function; grun_outputs shows the ghost does not change the run). "
+    "`trace ops` is the run from the empty exchange.", IMP18, [
+    ("c18h_ghost_is_inert", "grun_outputs", "The ghost bookkeeping does not change the run: the outputs along the trace are the outputs of the run."),
+    ("c18h_flag_is_seen", "ioc_flag_is_seen_init", "In every state of every history an IOC order is flagged exactly when it has already met a quoted tick, and it never survives a second one."),
+    ("c18h_ioc_fills_only_at_first_quoted_tick", "ioc_fills_only_at_first_quoted_tick_init", "An IOC fill happens only on the FIRST tick since admission that quotes its asset, under the slippage condition (buy: ask <= limit x 1.1, at the ask; sell: bid >= limit x 0.9, at the bid), and carries id, asset, size and the quote's price and date."),
+    ("c18h_ioc_first_quoted_tick_fate", "ioc_first_quoted_tick_fate_init", "On that first quoted tick it either fills and is gone for good, or is marked, rests flagged, and no later tick fills it …"),
+    ("c18h_ioc_dropped_at_second_quoted_tick", "ioc_dropped_at_second_quoted_tick_init", "… and the next tick that quotes its asset drops it without a fill, for good."),
+    ("c18h_ioc_never_fills_later", "ioc_never_fills_later_init", "After any tick that quoted its asset an IOC order never fills at a later point of the history."),
+    ("c18h_trigger_never_fills", "trigger_never_fills_history_init", "A trigger order never fills — not before, at, or after any point of any history at which it is known as a trigger order."),
+    ("c18h_trigger_child_next_tick", "trigger_child_next_tick_init", "A child announced by a tick has a fresh id, is not among that tick's fills nor any earlier ones, rests unflagged afterwards with its parent's asset, side, limit and size (IOC if market else GTC), its parent is gone, its own quoted-tick count starts at 0, and any fill of it happens strictly later."),
+    ("c18h_gtc_rests_until_crossed", "gtc_rests_until_crossed_init", "A GTC limit rests unchanged through every stretch of history in which it is not cancelled and its price condition never holds on a quoted tick, and on the next tick fills (at the ask / bid) exactly if ask <= limit (buy) / bid >= limit (sell)."),
+    ("c18h_example", "history18_trace", "Non-vacuity: a 7-operation history on the IEEE instance — an order that rests unquoted, is marked, then dropped; another that fills on its first quoted tick.", True),
+])
